@@ -12,6 +12,7 @@ import (
 	"encoding/json"
 	"flag"
 	"fmt"
+	"github.com/dolthub/go-mysql-server/sql"
 	"math/rand"
 	"os"
 	"os/exec"
@@ -47,7 +48,15 @@ var fixture = []string{
 	"CREATE TABLE t2 (c1 BIGINT UNSIGNED, c2 CHAR(3) COLLATE utf8mb4_0900_ai_ci, c3 DOUBLE, c4 DATE, c5 ENUM('x','y'), c6 SET('p','q'), c7 BIT(4), c8 YEAR, c9 TIME)",
 	"INSERT INTO t2 VALUES (18446744073709551615, 'abc', 1e10, '2000-02-29', 'x', 'p,q', b'1010', 2024, '12:34:56'), (0, '', -0.0, '0001-01-01', 'y', '', b'0', 1901, '-838:59:59')",
 	"CREATE VIEW v1 AS SELECT c1, c2 FROM t1",
+	"CREATE TABLE cs_utf16 (a INT PRIMARY KEY, b VARCHAR(10) CHARACTER SET utf16, KEY (b))",
+	"CREATE TABLE cs_utf32 (a INT PRIMARY KEY, b VARCHAR(10) CHARACTER SET utf32, KEY (b))",
+	"CREATE TABLE cs_utf8mb3 (a INT PRIMARY KEY, b VARCHAR(10) CHARACTER SET utf8mb3, KEY (b))",
+	"CREATE TABLE cs_latin1 (a INT PRIMARY KEY, b VARCHAR(10) CHARACTER SET latin1, KEY (b))",
+	"CREATE TABLE cs_ascii (a INT PRIMARY KEY, b CHAR(4) CHARACTER SET ascii, KEY (b))",
+	"INSERT INTO cs_utf16 VALUES (3, 'abc')", "INSERT INTO cs_utf32 VALUES (3, 'abc')", "INSERT INTO cs_utf8mb3 VALUES (3, 'abc')", "INSERT INTO cs_latin1 VALUES (3, 'abc')", "INSERT INTO cs_ascii VALUES (3, 'abc')",
 }
+
+var csTables = []string{"utf16", "utf32", "utf8mb3", "latin1", "ascii"}
 
 // ---------------------------------------------------------------- child
 
@@ -333,6 +342,46 @@ func (g *gen) systematic() []sysStmt {
 	return out
 }
 
+// charsetStmts: every supported character set x byte payloads (whole, truncated and ill-formed code
+// units / sequences) through the introducer, CONVERT ... USING, CAST ... CHARACTER SET, a column of
+// that character set and a comparison. Each must end in rows or an ordinary error.
+func (g *gen) charsetStmts() []sysStmt {
+	payloads := []string{"'a'", "'ab'", "'abc'", "'abcde'", "''", "x'C3'", "x'C3A9'", "x'E4B8'", "x'E4B8AD'", "x'F09F98'", "x'F09F9880'", "x'D800'", "x'D800DC'", "x'D800DC00'",
+		"x'00'", "x'0041'", "x'004100'", "x'0000004100'", "x'00000041'", "x'FF'", "x'FFFF'", "x'FFFFFFFF'", "x'80'", "x'8140'", "x'81'", "x'A1A1'", "x'8E'", "x'8FA1'", "x'61E4B8'", "x'DC00'", "x'110000'"}
+	var out []sysStmt
+	it := sql.NewCharacterSetsIterator()
+	for cs, ok := it.Next(); ok; cs, ok = it.Next() {
+		name := cs.Name
+		if g.sysFrac < 1 && g.r.Float64() > g.sysFrac {
+			continue
+		}
+		fn := "charset:" + name
+		for _, p := range payloads {
+			if g.sysFrac < 1 && g.r.Intn(2) == 0 {
+				continue
+			}
+			out = append(out, sysStmt{"SELECT _" + name + " " + p, fn})
+			switch g.r.Intn(6) {
+			case 0:
+				out = append(out, sysStmt{"SELECT _" + name + " " + p + " COLLATE " + cs.DefaultCollation.Name(), fn})
+			case 1:
+				out = append(out, sysStmt{"SELECT CONVERT(" + p + " USING " + name + "), CONVERT(_" + name + " " + p + " USING utf8mb4)", fn})
+			case 2:
+				out = append(out, sysStmt{"SELECT CAST(" + p + " AS CHAR CHARACTER SET " + name + "), HEX(_" + name + " " + p + "), LENGTH(_" + name + " " + p + "), CHAR_LENGTH(_" + name + " " + p + ")", fn})
+			case 3:
+				out = append(out, sysStmt{"SELECT _" + name + " " + p + " = _" + name + " " + g.pick(payloads) + ", UPPER(_" + name + " " + p + "), CONCAT(_" + name + " " + p + ", 'z')", fn})
+			case 4:
+				out = append(out, sysStmt{"SELECT c2 FROM t1 WHERE c2 = _" + name + " " + p + " OR c2 LIKE _" + name + " " + p, fn})
+			default:
+				t := "cs_" + g.pick(csTables)
+				out = append(out, sysStmt{"REPLACE INTO " + t + " VALUES (1, _" + name + " " + p + "), (2, " + p + ")", fn},
+					sysStmt{"SELECT a, HEX(b), LENGTH(b) FROM " + t + " WHERE b >= " + p + " OR b = _" + name + " " + p + " ORDER BY b", fn})
+			}
+		}
+	}
+	return out
+}
+
 func (g *gen) statement() (string, string) {
 	for {
 		var s, kind string
@@ -492,6 +541,9 @@ func main() {
 			g.sysFrac = *sysFrac
 			for i, s := range g.systematic() {
 				stmts = append(stmts, event{Ev: "stmt", ID: 10000000 + i, Kind: "systematic", SQL: s.sql, Fn: s.fn})
+			}
+			for i, s := range g.charsetStmts() {
+				stmts = append(stmts, event{Ev: "stmt", ID: 20000000 + i, Kind: "charset", SQL: s.sql, Fn: s.fn})
 			}
 		}
 	}
